@@ -40,6 +40,14 @@ bool g_update_ops = false;
 bool g_expect_client = false;
 bool g_is_client[MAXT];
 
+// harness bookkeeping shared by its threads: kept out of the detector's view (no recording, no access-level scheduling point)
+int next_task() {
+    if (rd_ignore) rd_ignore(1);
+    int k = g_next_task++;
+    if (rd_ignore) rd_ignore(-1);
+    return k;
+}
+
 void ev(const char *e, int k, int w, int n = 0) { out().line("\"e\":\"%s\",\"k\":%d,\"w\":%d,\"n\":%d", e, k, w, n); }
 
 struct Task : tulz::Runnable {
@@ -88,7 +96,7 @@ void owner_op(char op) {
     g_stop_notified = false;
     switch (op) {
         case 'S': {
-            int k = g_next_task++;
+            int k = next_task();
             auto *t = new Task(k);
             ev("Submit", k, 0);
             g_pool->start(t);
@@ -96,7 +104,7 @@ void owner_op(char op) {
             break;
         }
         case 'K': {
-            int k = g_next_task++;
+            int k = next_task();
             CallTask c{std::make_shared<Token>(k)};
             ev("Submit", k, 0);
             g_pool->start(std::move(c), int(k * 7), std::string(40, 'x') + std::to_string(k));
@@ -125,7 +133,7 @@ void owner_op(char op) {
         case 'M': {
             // a second client submits tasks while the owner does: start() from two threads at once
             auto submit = [] {
-                int k = g_next_task++;
+                int k = next_task();
                 auto *t = new Task(k);
                 ev("Submit", k, vs::self());
                 g_pool->start(t);
@@ -356,6 +364,8 @@ void run_exec(const Execution &ex) {
     } else {
         ctl.mode = vs::BaseController::RANDOM;
         ctl.rng = vs::Rng((uint64_t) ex.cfg.num("seed", 1));
+        if (rd_access_yield) rd_access_yield((int) ex.cfg.num("accy", 0), (unsigned) ex.cfg.num("seed", 1));
+        if (ex.cfg.num("accy", 0)) ctl.max_steps *= 20;
         ctl.spurious_per_1000 = (int) ex.cfg.num("spurious", 0);
         // a timed wait (none in the code as it stands) may time out at any moment: the holder may be arbitrarily slow
         ctl.timeout_per_1000 = (int) ex.cfg.num("timeouts", 40);
